@@ -351,6 +351,8 @@ class RendererFactory:
 def the_view(request):
     st = st_of(request)
     st.hook(request, 'viewBody')
+    if request.environ.get('c13.scope') is not None:
+        request.environ['c13.scope']()
     xx = st.spec.get('xx')
     if xx is not None:
         try:
@@ -838,16 +840,28 @@ class Probe:
     def __init__(self, fail):
         self.fail = set(fail)
         self.visits = []
+        self.expect = None       # the registry of the scope the hooks run in (identity)
+        self.regok = []          # per hook: get_current_registry() IS that registry
 
     def visit(self, label):
         bad = label in self.fail
         self.visits.append([label, len(manager.stack), bad, site_here()])
+        if self.expect is not None and not label.startswith('mkreq'):
+            self.regok.append([label, get_current_registry() is self.expect])
         if bad:
             raise Boom(label)
 
 
 def visit(label):
     _PROBE[0].visit(label)
+
+
+def scope_config(**kw):
+    """a NEW application's configurator (fresh registry — its dict contents equal those of any other registry); the
+    hooks of the scope it opens must see exactly this registry as the current one"""
+    c = Configurator(**kw)
+    _PROBE[0].expect = c.registry
+    return c
 
 
 def inc_target(config):
@@ -904,6 +918,9 @@ SCOPES = {
     'xother_bare': (None, {}, ['excView']),
 }
 XTARGETS = ('same', 'fresh', 'otherreg')
+# scopes also opened while a request of another application (registry with equal dict contents) is being served
+OUTER_SCOPES = ('include', 'commit', 'action_autocommit', 'with_configurator', 'route_prefix_context', 'make_wsgi_app',
+                'begin_end', 'request_context', 'prepare_closer', 'with_prepare', 'get_root_closer')
 
 
 def scope_explicit(request, st, target, fail, ident):
@@ -940,33 +957,45 @@ def run_scope(case):
     del manager.stack[:]
     for _ in range(int(case.get('base', 0))):
         manager.push({'request': None, 'registry': None})
+    outer = None
+    if case.get('outer') == 'request':
+        # the scope is opened while a request of ANOTHER application is being served (a frame with that request and
+        # that application's registry on top; the two registries have equal dict contents)
+        from pyramid.threadlocal import RequestContext as _RC
+        req_a = Request.blank('/outer')
+        req_a.registry = make_app(False).registry
+        outer = _RC(req_a)
+        outer.begin()
     base = len(manager.stack)
     raised = False
-    try:
+    meas = {'before': base, 'after': None}
+
+    def scoped():
+        meas['before'] = len(manager.stack)
         try:
             if sc == 'include':
-                Configurator().include(inc_target)
+                scope_config().include(inc_target)
             elif sc == 'commit':
-                c = Configurator()
+                c = scope_config()
                 c.action(None, callable=lambda: visit('act'))
                 c.commit()
             elif sc == 'action_autocommit':
-                Configurator(autocommit=True).action(None, callable=lambda: visit('act'))
+                scope_config(autocommit=True).action(None, callable=lambda: visit('act'))
             elif sc == 'with_configurator':
-                with Configurator() as c:
+                with scope_config() as c:
                     c.action(None, callable=lambda: visit('act'))
                     visit('body')
             elif sc == 'route_prefix_context':
-                with Configurator().route_prefix_context('p'):
+                with scope_config().route_prefix_context('p'):
                     visit('body')
             elif sc == 'make_wsgi_app':
-                c = Configurator()
+                c = scope_config()
                 c.add_subscriber(lambda ev: visit('created'), ApplicationCreated)
                 c.commit()
                 c.action(None, callable=lambda: visit('act'))
                 c.make_wsgi_app()
             elif sc == 'begin_end':
-                c = Configurator()
+                c = scope_config()
                 c.begin()
                 try:
                     visit('body')
@@ -976,11 +1005,13 @@ def run_scope(case):
                 from pyramid.threadlocal import RequestContext
                 r = Request.blank('/')
                 r.registry = make_app(False).registry
+                probe.expect = r.registry
                 with RequestContext(r):
                     visit('body')
             elif sc in ('prepare_closer', 'with_prepare'):
                 from pyramid.scripting import prepare
                 reg = _script_config().registry
+                probe.expect = reg
 
                 def add_cbs(env):
                     for i in range(ncb):
@@ -1000,6 +1031,7 @@ def run_scope(case):
                 from pyramid.scripting import get_root
                 cfg = _script_config()
                 app = cfg.make_wsgi_app()
+                probe.expect = cfg.registry
                 root, closer = get_root(app)
                 try:
                     visit('body')
@@ -1045,13 +1077,27 @@ def run_scope(case):
                         scope_explicit(req, st, target, fail, ident)
             else:
                 raise ValueError('unknown scenario %r' % sc)
+        finally:
+            meas['after'] = len(manager.stack)
+    try:
+        try:
+            if case.get('outer') == 'view':
+                # … or from inside the view of a real request of the other application
+                st_v = ReqState({'faults': [], 'regs': []}, base)
+                environ = Request.blank('/').environ
+                environ['c13'] = st_v
+                environ['c13.scope'] = scoped
+                list(make_app(False)(environ, lambda s, h, e=None: None))
+            else:
+                scoped()
         except Exception:
             raised = True
     finally:
-        after = len(manager.stack)
+        after = meas['after'] if meas['after'] is not None else len(manager.stack)
+        base = meas['before']
         del manager.stack[:]
         _PROBE[0] = None
-    return {'visits': probe.visits, 'raised': raised, 'before': base, 'after': after, 'ident': ident}
+    return {'visits': probe.visits, 'raised': raised, 'before': base, 'after': after, 'ident': ident, 'regok': probe.regok}
 
 
 def scope_wf(case):
@@ -1060,7 +1106,7 @@ def scope_wf(case):
         return (sc in SCOPES and isinstance(case.get('fail', []), list) and all(f in SCOPES[sc][2] for f in case.get('fail', []))
                 and isinstance(case.get('base', 0), int) and 0 <= case.get('base', 0) <= 3
                 and isinstance(case.get('ncb', 0), int) and 0 <= case.get('ncb', 0) <= 2
-                and case.get('target', 'fresh') in XTARGETS)
+                and case.get('target', 'fresh') in XTARGETS and case.get('outer') in (None, 'request', 'view'))
     except Exception:
         return False
 
@@ -1214,6 +1260,10 @@ def exec_compare(mo, visits, hooked, want_raised, want_depth):
 def scope_check(case, obs):
     """the property on a scope: the stack is back at its previous depth when the scope ends, however it ends; inside an
     exception view invoked explicitly the current request is the request being rendered"""
+    wrong = [l for l, ok in obs.get('regok', []) if not ok]
+    if wrong:
+        return {'case': case, 'impl': obs, 'expected': {'regok': 'all true'},
+                'detail': 'scope %s: in hook(s) %s get_current_registry() is not the registry of the scope that was opened' % (case['scenario'], wrong)}
     if any(not i[0] for i in obs.get('ident', [])):
         return {'case': case, 'impl': obs, 'expected': {'ident': 'all true'},
                 'detail': 'scope %s: inside the exception view the current request/registry is not the request handed to invoke_exception_view' % case['scenario']}
@@ -1235,6 +1285,11 @@ def all_scope_cases():
                     out.append({'kind': 'scope', 'scenario': sc, 'fail': [l], 'base': base, 'ncb': ncb})
             for a, b in itertools.combinations(usable, 2):
                 out.append({'kind': 'scope', 'scenario': sc, 'fail': [a, b], 'base': 1, 'ncb': ncb})
+    for c in list(out):
+        if c['scenario'] in OUTER_SCOPES and c['base'] == 0 and len(c['fail']) <= 1:
+            out.append(dict(c, outer='request'))
+            if not c['fail']:
+                out.append(dict(c, outer='view'))
     extra = []
     for c in out:
         if c['scenario'].startswith('xother_'):
